@@ -140,7 +140,8 @@ class Check:
             specs += [gen.c10_random_spec(self.seed, k, self.corp, self.hash_seeds) for k in range(c["random"])]
             return specs
         if p == "C11":
-            return (gen.c11_directed_specs(self.corp, self.hash_seeds)
+            return ((gen.c11_many_distinct_specs(self.corp) if self.tier == "thorough" else [])
+                    + gen.c11_directed_specs(self.corp, self.hash_seeds)
                     + [gen.c11_spec(self.seed, k, self.corp, self.hash_seeds, soak=True) for k in range(c["soak"])]
                     + [gen.c11_spec(self.seed, k, self.corp, self.hash_seeds) for k in range(c["runs"])])
         if p == "C14":
